@@ -163,6 +163,24 @@ func offerItem(snct, cnct bool, smwb, cmwb int) string {
 }
 
 func genC14(tier string, r *rng) {
+	// the negotiator as the upgraders drive it: several offers in ONE header line, an offer the negotiator
+	// objects to in every position - the objection is an error of the handshake wherever it stands
+	{
+		base := baseHeaders()
+		good := []string{"permessage-deflate", "permessage-deflate; client_max_window_bits", "x-other; k=v"}
+		bad := []string{"permessage-deflate; server_max_window_bits=7", "permessage-deflate; unknown=1", "permessage-deflate; client_max_window_bits=16",
+			"permessage-deflate; server_no_context_takeover=1", "permessage-deflate; client_no_context_takeover; client_no_context_takeover"}
+		for bi, b := range bad {
+			for gi, g := range good {
+				for _, line := range []string{b + ", " + g, g + ", " + b, g + ", " + b + ", " + g, "x-other, " + b + ", " + g} {
+					req := buildReq("GET", "/", "HTTP/1.1", append(append([]hdr{}, base...), hdr{"Sec-WebSocket-Extensions", " " + line}), "\r\n")
+					cfg := []string{"neg:0;0;0;0", "neg:1;1;12;10"}[(bi+gi)%2]
+					run(fmt.Sprintf("up %s %s %d E", cfg, hx(req), []int{0, 7}[(bi+gi)%2]))
+					run(fmt.Sprintf("hup %s %s", cfg, hx(req)))
+				}
+			}
+		}
+	}
 	bitsS := []int{0, 8, 9, 10, 11, 12, 13, 14, 15}       // server_max_window_bits in an offer / cfg
 	bitsC := []int{0, 1, 8, 9, 10, 11, 12, 13, 14, 15}    // client_max_window_bits in an offer
 	var cfgs []string
